@@ -111,6 +111,8 @@ H("protocol", "c05_output_lambda_msg_n3", needs_segment=["output_lambda_msg"],
   what="evaluator's reveal message for one recipient: Some only for output registers, payload == (masked value, label of that recipient)", bounds="n=3, 3 registers, output registers (2,0,2), recipient 1 or 2", functions=["mpc::protocol::output (message-building closure of the 'lambda' round)"], panic_prop="C08")
 H("protocol", "c05_output_recipients", needs_segment=["output_share_recipients", "output_lambda_recipients"],
   what="recipients of both send rounds of output() == members of p_out other than the party itself, each once", bounds="|p_out| <= 3, all usize entries, any p_own", functions=["mpc::protocol::output (recipient expressions of both send rounds)"], panic_prop="C08")
+H("protocol", "c07_garble_input_labels_are_fresh_draws", needs_segment=["garble_garbler_full"],
+  what="garbler: every input wire's zero-label is its own random draw; wire labels == input labels; NOT offsets by delta", bounds="2 inputs + 1 NOT, random() = 4 arbitrary values in call order", functions=["mpc::protocol::garble (state set-up + garbler loop)"], panic_prop="C08", stubs=["rand::random -> k-th of four arbitrary values", "FileOrMemBuf::iter -> fixed shares", "encrypt/send_to as in garbler_loop"])
 H("protocol", "c07_ip_labels_one_label_per_wire", needs_segment=["ip_labels"],
   what="garbler reveals exactly one label per input wire: label0 ^ masked bit * delta; nothing for other registers", bounds="3 registers, arbitrary Option pattern, labels/delta symbolic", functions=["mpc::protocol::input_processing (label selection segment)"], panic_prop="C08")
 
@@ -174,6 +176,8 @@ H("ot", "c11_block_u128_byte_order", what="block_to_u128(Block::from(x.to_be_byt
 # C09
 for nm, what in (("c09_len_vec_opt_bool_mac", "Vec<Option<(bool,Mac)>>"), ("c09_len_vec_opt_bool_and_label", "Vec<Option<bool>>, Vec<Option<Label>>, Vec<Option<(bool,Label)>>"), ("c09_len_u128_family", "Vec<u128>, Vec<(bool,u128)>, Vec<(bool,bool,Mac,Mac)>, Vec<(bool,bool)>, Vec<u32>"), ("c09_len_dvalues_and_row", "Vec<(Vec<bool>,Vec<Mac>)>, (bool,Vec<Mac>,Label)"), ("c09_len_blocks_and_bytes", "Vec<Block>, Vec<(Block,Block,Block)>, Vec<Vec<u8>>"), ("c09_len_share_n2", "Vec<Share>")):
     H("serde", nm, tier="thorough" if nm == "c09_len_blocks_and_bytes" else "quick", timeout=1200, what=f"serialize length of {what} is the same for all leaf values of one shape (self-composition) and equals 8 + sum of fixed widths", bounds="vector lengths <= 3, fixed Option pattern, all leaf values symbolic", functions=["utils::serde::serialize", "bincode::serde::encode_to_vec (legacy config)"], panic_prop="C09")
+H("garble", "c09_encrypt_plaintext_len_value_independent", needs_segment=["encrypt_plaintext_len"], timeout=1200,
+  what="garbled row: the plaintext handed to the AEAD by encrypt() has a value-independent length == 1+8+16n+16", bounds="n=2 MACs, all values symbolic (self-composition)", functions=["mpc::garble::encrypt (statements before the AEAD call + its plaintext argument)", "utils::serde::serialize"], panic_prop="C09", stubs=["ChaCha20Poly1305 itself is outside the cut (ciphertext = plaintext + 16-byte tag by the AEAD's definition)"])
 H("garble", "c09_key_and_nonce_injective", what="AEAD (key, nonce) is fixed-size and injective in (label_x, label_y, w as u64, row); layout big-endian", bounds="full width", functions=["mpc::garble::key_and_nonce"], panic_prop="C09")
 
 # C08 decoders
@@ -279,8 +283,8 @@ PROPS["C07"] = dict(
     explanation="Segment harness over fashare() step 3c.",
     outside="information-flow over whole executions is outside the technique's reach.",
     assumptions=[FMT, TRACING, SEG, N2, "RHO shadowed by a local const 2 inside the segment"],
-    segments=["fashare_3c", "ip_labels"],
-    harnesses=hs("c07_fashare_3c_n2", "c07_ip_labels_one_label_per_wire"),
+    segments=["fashare_3c", "ip_labels", "garble_garbler_full"],
+    harnesses=hs("c07_fashare_3c_n2", "c07_ip_labels_one_label_per_wire", "c07_garble_input_labels_are_fresh_draws"),
 )
 
 PROPS["C08"] = dict(
@@ -302,7 +306,7 @@ PROPS["C09"] = dict(
     outside="vector lengths <= 3; fixed Option pattern per query.",
     assumptions=[FMT, TRACING],
     harnesses=by_prefix("c09_"),
-    segments=["ip_pre"],
+    segments=["ip_pre", "encrypt_plaintext_len"],
 )
 
 PROPS["C10"] = dict(
